@@ -148,7 +148,7 @@ def run(tier, seed, replay=None):
     outs = C.run_model(lines)
     evals = 0
     nontriv = set()
-    corr_bad = None
+    corr_bad = C.Corr()
     samples = []
 
     def model_obj(tk):
@@ -165,15 +165,15 @@ def run(tier, seed, replay=None):
         if mp[0] == 'Err':
             if mp[1] == 'Singular':
                 pass    # the exact solve refused (ill-posed collocation): nothing to compare
-            elif c['err'] != mp[1] and corr_bad is None:
-                corr_bad = dict(case, what='L1: model raises %s, implementation %s' % (mp[1], c['err'] or 'succeeds'))
+            elif c['err'] != mp[1] and corr_bad.open():
+                corr_bad += dict(case, what='L1: model raises %s, implementation %s' % (mp[1], c['err'] or 'succeeds'))
         elif c['err'] is not None:
-            if corr_bad is None:
-                corr_bad = dict(case, what='L1: implementation raises %s, model succeeds' % c['err'])
+            if corr_bad.open():
+                corr_bad += dict(case, what='L1: implementation raises %s, model succeeds' % c['err'])
         else:
             dfr = O.snaps_differ(post, mp[1], rel=1e-7)
-            if dfr and corr_bad is None:
-                corr_bad = dict(case, what='L1: post-state differs from model: ' + dfr)
+            if dfr and corr_bad.open():
+                corr_bad += dict(case, what='L1: post-state differs from model: ' + dfr)
         # ---- L2
         if c['err'] is not None:
             V.failure(dict(case, what='L2: raise_order raised %s' % c['err']))
@@ -202,8 +202,8 @@ def run(tier, seed, replay=None):
             ml = model_obj(outs[ent['l1_low']])
             if ml[0] == 'Ok':
                 dfr = O.snaps_differ(c['lowered'], ml[1], rel=1e-6)
-                if dfr and corr_bad is None:
-                    corr_bad = dict(case, what='L1: lower_order result differs from model: ' + dfr)
+                if dfr and corr_bad.open():
+                    corr_bad += dict(case, what='L1: lower_order result differs from model: ' + dfr)
             low = c['lowered']
             for d, (bb, bl) in enumerate(zip(pre['bases'], low['bases'])):
                 if bl['order'] != bb['order'] or len(bl['knots']) != len(bb['knots']) or \
@@ -216,7 +216,7 @@ def run(tier, seed, replay=None):
                 V.failure(dict(case, what='L2: lower_order is not a left inverse of raise_order: ' + df[1], param=[str(x) for x in ent['probes'][df[0]]]))
         if len(samples) < 3 and sum(c['amounts']) >= 2 and len(pre['bases']) >= 2:
             samples.append(case)
-    rc = V.finish(l0, corr_bad if not V.fail else None)
+    rc = V.finish(l0, corr_bad)
     C.write_evidence(PID, tier, seed, l0, {
         'evaluations': evals, 'distinct_nontrivial': len(nontriv),
         'rule': 'random objects (pardim 1-3, open/non-open/periodic, rational 40%); raise_order by 0..3 per direction, set_order, raise_order(0), '
